@@ -104,7 +104,7 @@ def params_strategy():
 def error_strategy():
     data = st.one_of(st.just({'absent': True}), st.just({'value': None}), st.builds(lambda v: {'value': v}, jg.json_value(8)))
     code = st.one_of(
-        st.sampled_from([0, 1, -1, -32700, -32600, -32601, -32602, -32603, -32000, -32050, -32099, 2001, 2002, 2003, 2004, 2005, 2005, 2006, 3001, 2**31, 10**30]),
+        st.sampled_from([0, 1, -1, -32700, -32600, -32601, -32602, -32603, -32000, -32050, -32099, 2001, 2002, 2003, 2004, 2005, 2005, 2006, 2008, 2008, 2009, 3001, 2**31, 10**30]),
         jg.integers(),
     )
     message = st.one_of(st.sampled_from(['', 'm', 'Method not found']), jg.strings())
@@ -225,8 +225,8 @@ class C05(Check):
                       st.lists(response_strategy(st.one_of(st.integers(0, 6), jg.valid_ids())), max_size=5), ecls),
             st.builds(lambda e, c: {'kind': 'batch_error', 'error': e, 'error_cls': c}, error_strategy(), ecls),
             program_strategy(),
-            st.builds(lambda k, p: {'kind': 'late_class', 'code_kind': k, 'paths': p}, st.sampled_from(sorted(LATE_CODES)),
-                      st.lists(st.sampled_from(['error', 'response', 'batch']), min_size=1, max_size=3, unique=True)),
+            st.builds(lambda k, p, d: {'kind': 'late_class', 'code_kind': k, 'paths': p, 'declares': d}, st.sampled_from(sorted(LATE_CODES)),
+                      st.lists(st.sampled_from(['error', 'response', 'batch']), min_size=1, max_size=3, unique=True), st.sampled_from(['both', 'code-only'])),
         )
 
     def corpus(self):
@@ -244,6 +244,10 @@ class C05(Check):
             {'kind': 'late_class', 'code_kind': 'fresh', 'paths': ['error', 'response', 'batch']},
             {'kind': 'late_class', 'code_kind': 'builtin', 'paths': ['response']},
             {'kind': 'late_class', 'code_kind': 'application', 'paths': ['batch', 'error']},
+            {'kind': 'late_class', 'code_kind': 'fresh', 'paths': ['response', 'batch'], 'declares': 'code-only'},
+            {'kind': 'late_class', 'code_kind': 'application', 'paths': ['error'], 'declares': 'code-only'},
+            {'kind': 'error', 'error': {'cls': 'JsonRpcError', 'code': 2008, 'message': 'given where raised', 'data': {'absent': True}}, 'error_cls': 'JsonRpcError'},
+            {'kind': 'batch_response', 'responses': [{'id': 1, 'error': {'cls': 'CodeOnlyChild2009', 'code': None, 'message': None, 'data': {'absent': True}}}], 'error_cls': 'PlainBase'},
             {'kind': 'error', 'error': {'cls': 'Custom2001', 'code': None, 'message': None, 'data': {'absent': True}, 'attach': True}, 'error_cls': 'JsonRpcError'},
             {'kind': 'response', 'response': {'id': 1, 'error': {'cls': 'JsonRpcError', 'code': 5, 'message': 'm', 'data': {'value': [1]}, 'attach': True}}, 'error_cls': 'JsonRpcError'},
             {'kind': 'batch_error', 'error': {'cls': 'JsonRpcError', 'code': 5, 'message': 'm', 'data': {'absent': True}, 'attach': True}, 'error_cls': 'JsonRpcError'},
@@ -359,18 +363,20 @@ class C05(Check):
             want_first = before or JsonRpcError
             if any(c is not want_first for c in first):
                 discs.append(Disc("C05/late-class/before-definition", f"{[c.__name__ for c in first]} expected {want_first.__name__} for code {code}"))
-            late = type('LateClass', (before or JsonRpcError,), {'code': code, 'message': 'late'})
+            # what the class body declares: code and message, or the code alone (message inherited / given where it is raised)
+            body_attrs = {'code': code, 'message': 'late'} if spec.get('declares', 'both') == 'both' else {'code': code}
+            late = type('LateClass', (before or JsonRpcError,), body_attrs)
             second = [cls_of(h) for h in spec['paths']]
             if any(c is not late for c in second):
                 discs.append(Disc("C05/late-class/class-registered-later-not-used",
                                   f"code {code} ({spec['code_kind']}) deserialised to {[c.__name__ for c in second]} after class LateClass was registered for it "
-                                  f"(paths {spec['paths']})"))
+                                  f"(paths {spec['paths']}, class body declares {spec.get('declares', 'both')})"))
         finally:
             if before is None:
                 JsonRpcErrorMeta.__errors_mapping__.pop(code, None)
             else:
                 JsonRpcErrorMeta.__errors_mapping__[code] = before
-        return Outcome(discs, True, ['late-class', f"late-class/{spec['code_kind']}"])
+        return Outcome(discs, True, ['late-class', f"late-class/{spec['code_kind']}", f"late-class/declares-{spec.get('declares', 'both')}"])
 
     def run_case(self, spec: Any) -> Outcome:
         kind = spec['kind']
